@@ -125,6 +125,13 @@ def drain_round_robin_ok(F: Facts, awaiter, bus, ev, awaited=None):
     prev = next((i for i in range(cur - 1, -1, -1) if mine[i][1] == bus), None)
     if prev is None:
         return True
+    if (F.sc.get('bus_order') or {}).get('rotate_every'):
+        # the iteration order of the bus registry rotates between passes in this run (seam, models a re-hash): a bus
+        # can be last in one pass and first in the next, so two takes in a row are still one per pass - judge the
+        # take before the previous one
+        prev = next((i for i in range(prev - 1, -1, -1) if mine[i][1] == bus), None)
+        if prev is None:
+            return True
     pe_prev = [p[1] for p in F.pe.get((bus, mine[prev][2]), ()) if p[0] >= mine[prev][0] and p[1] is not None]
     if not pe_prev:
         return True
